@@ -6382,47 +6382,194 @@ let hook_call e n s =
              | Call (sy, c, f, args, ta) ->
                (match args with
                 | [] -> (n, s)
-                | a0 :: _ ->
-                  if has_option args (String ((Ascii (false, false, false,
-                       false, true, true, true, false)), (String ((Ascii
-                       (false, true, false, false, true, true, true, false)),
-                       (String ((Ascii (true, true, true, true, false, true,
-                       true, false)), (String ((Ascii (false, false, false,
-                       false, true, true, true, false)), (String ((Ascii
-                       (true, true, false, false, true, true, true, false)),
-                       EmptyString))))))))))
-                  then if has_option args (String ((Ascii (true, false, true,
-                            false, false, true, true, false)), (String
-                            ((Ascii (true, false, true, true, false, true,
-                            true, false)), (String ((Ascii (true, false,
-                            false, true, false, true, true, false)), (String
-                            ((Ascii (false, false, true, false, true, true,
-                            true, false)), (String ((Ascii (true, true,
-                            false, false, true, true, true, false)),
-                            EmptyString))))))))))
-                       then ((Call (sy, c, f, args, ta)), s)
-                       else let (emits, s0) = extract_emits_type e a0 s in
-                            let args0 =
-                              match emits with
-                              | Some e0 ->
-                                inject_option args (String ((Ascii (true,
-                                  false, true, false, false, true, true,
-                                  false)), (String ((Ascii (true, false,
-                                  true, true, false, true, true, false)),
-                                  (String ((Ascii (true, false, false, true,
+                | a0 :: l ->
+                  (match l with
+                   | [] ->
+                     if has_option args (String ((Ascii (false, false, false,
+                          false, true, true, true, false)), (String ((Ascii
+                          (false, true, false, false, true, true, true,
+                          false)), (String ((Ascii (true, true, true, true,
+                          false, true, true, false)), (String ((Ascii (false,
+                          false, false, false, true, true, true, false)),
+                          (String ((Ascii (true, true, false, false, true,
+                          true, true, false)), EmptyString))))))))))
+                     then if has_option args (String ((Ascii (true, false,
+                               true, false, false, true, true, false)),
+                               (String ((Ascii (true, false, true, true,
+                               false, true, true, false)), (String ((Ascii
+                               (true, false, false, true, false, true, true,
+                               false)), (String ((Ascii (false, false, true,
+                               false, true, true, true, false)), (String
+                               ((Ascii (true, true, false, false, true, true,
+                               true, false)), EmptyString))))))))))
+                          then ((Call (sy, c, f, args, ta)), s)
+                          else let (emits, s0) = extract_emits_type e a0 s in
+                               let args0 =
+                                 match emits with
+                                 | Some e0 ->
+                                   inject_option args (String ((Ascii (true,
+                                     false, true, false, false, true, true,
+                                     false)), (String ((Ascii (true, false,
+                                     true, true, false, true, true, false)),
+                                     (String ((Ascii (true, false, false,
+                                     true, false, true, true, false)),
+                                     (String ((Ascii (false, false, true,
+                                     false, true, true, true, false)),
+                                     (String ((Ascii (true, true, false,
+                                     false, true, true, true, false)),
+                                     EmptyString)))))))))) e0
+                                 | None -> args
+                               in
+                               ((Call (sy, c, f, args0, ta)), s0)
+                     else let (props, s0) = extract_props_type e a0 s in
+                          let args0 =
+                            match props with
+                            | Some p ->
+                              inject_option args (String ((Ascii (false,
+                                false, false, false, true, true, true,
+                                false)), (String ((Ascii (false, true, false,
+                                false, true, true, true, false)), (String
+                                ((Ascii (true, true, true, true, false, true,
+                                true, false)), (String ((Ascii (false, false,
+                                false, false, true, true, true, false)),
+                                (String ((Ascii (true, true, false, false,
+                                true, true, true, false)),
+                                EmptyString)))))))))) p
+                            | None -> args
+                          in
+                          if has_option args0 (String ((Ascii (true, false,
+                               true, false, false, true, true, false)),
+                               (String ((Ascii (true, false, true, true,
+                               false, true, true, false)), (String ((Ascii
+                               (true, false, false, true, false, true, true,
+                               false)), (String ((Ascii (false, false, true,
+                               false, true, true, true, false)), (String
+                               ((Ascii (true, true, false, false, true, true,
+                               true, false)), EmptyString))))))))))
+                          then ((Call (sy, c, f, args0, ta)), s0)
+                          else let (emits, s1) = extract_emits_type e a0 s0 in
+                               let args1 =
+                                 match emits with
+                                 | Some e0 ->
+                                   inject_option args0 (String ((Ascii (true,
+                                     false, true, false, false, true, true,
+                                     false)), (String ((Ascii (true, false,
+                                     true, true, false, true, true, false)),
+                                     (String ((Ascii (true, false, false,
+                                     true, false, true, true, false)),
+                                     (String ((Ascii (false, false, true,
+                                     false, true, true, true, false)),
+                                     (String ((Ascii (true, true, false,
+                                     false, true, true, true, false)),
+                                     EmptyString)))))))))) e0
+                                 | None -> args0
+                               in
+                               ((Call (sy, c, f, args1, ta)), s1)
+                   | n0 :: _ ->
+                     (match n0 with
+                      | Elem (spread, _) ->
+                        if spread
+                        then (n, s)
+                        else if has_option args (String ((Ascii (false,
+                                  false, false, false, true, true, true,
+                                  false)), (String ((Ascii (false, true,
+                                  false, false, true, true, true, false)),
+                                  (String ((Ascii (true, true, true, true,
                                   false, true, true, false)), (String ((Ascii
-                                  (false, false, true, false, true, true,
+                                  (false, false, false, false, true, true,
                                   true, false)), (String ((Ascii (true, true,
                                   false, false, true, true, true, false)),
-                                  EmptyString)))))))))) e0
-                              | None -> args
-                            in
-                            ((Call (sy, c, f, args0, ta)), s0)
-                  else let (props, s0) = extract_props_type e a0 s in
-                       let args0 =
-                         match props with
-                         | Some p ->
-                           inject_option args (String ((Ascii (false, false,
+                                  EmptyString))))))))))
+                             then if has_option args (String ((Ascii (true,
+                                       false, true, false, false, true, true,
+                                       false)), (String ((Ascii (true, false,
+                                       true, true, false, true, true,
+                                       false)), (String ((Ascii (true, false,
+                                       false, true, false, true, true,
+                                       false)), (String ((Ascii (false,
+                                       false, true, false, true, true, true,
+                                       false)), (String ((Ascii (true, true,
+                                       false, false, true, true, true,
+                                       false)), EmptyString))))))))))
+                                  then ((Call (sy, c, f, args, ta)), s)
+                                  else let (emits, s0) =
+                                         extract_emits_type e a0 s
+                                       in
+                                       let args0 =
+                                         match emits with
+                                         | Some e0 ->
+                                           inject_option args (String ((Ascii
+                                             (true, false, true, false,
+                                             false, true, true, false)),
+                                             (String ((Ascii (true, false,
+                                             true, true, false, true, true,
+                                             false)), (String ((Ascii (true,
+                                             false, false, true, false, true,
+                                             true, false)), (String ((Ascii
+                                             (false, false, true, false,
+                                             true, true, true, false)),
+                                             (String ((Ascii (true, true,
+                                             false, false, true, true, true,
+                                             false)), EmptyString)))))))))) e0
+                                         | None -> args
+                                       in
+                                       ((Call (sy, c, f, args0, ta)), s0)
+                             else let (props, s0) = extract_props_type e a0 s
+                                  in
+                                  let args0 =
+                                    match props with
+                                    | Some p ->
+                                      inject_option args (String ((Ascii
+                                        (false, false, false, false, true,
+                                        true, true, false)), (String ((Ascii
+                                        (false, true, false, false, true,
+                                        true, true, false)), (String ((Ascii
+                                        (true, true, true, true, false, true,
+                                        true, false)), (String ((Ascii
+                                        (false, false, false, false, true,
+                                        true, true, false)), (String ((Ascii
+                                        (true, true, false, false, true,
+                                        true, true, false)),
+                                        EmptyString)))))))))) p
+                                    | None -> args
+                                  in
+                                  if has_option args0 (String ((Ascii (true,
+                                       false, true, false, false, true, true,
+                                       false)), (String ((Ascii (true, false,
+                                       true, true, false, true, true,
+                                       false)), (String ((Ascii (true, false,
+                                       false, true, false, true, true,
+                                       false)), (String ((Ascii (false,
+                                       false, true, false, true, true, true,
+                                       false)), (String ((Ascii (true, true,
+                                       false, false, true, true, true,
+                                       false)), EmptyString))))))))))
+                                  then ((Call (sy, c, f, args0, ta)), s0)
+                                  else let (emits, s1) =
+                                         extract_emits_type e a0 s0
+                                       in
+                                       let args1 =
+                                         match emits with
+                                         | Some e0 ->
+                                           inject_option args0 (String
+                                             ((Ascii (true, false, true,
+                                             false, false, true, true,
+                                             false)), (String ((Ascii (true,
+                                             false, true, true, false, true,
+                                             true, false)), (String ((Ascii
+                                             (true, false, false, true,
+                                             false, true, true, false)),
+                                             (String ((Ascii (false, false,
+                                             true, false, true, true, true,
+                                             false)), (String ((Ascii (true,
+                                             true, false, false, true, true,
+                                             true, false)),
+                                             EmptyString)))))))))) e0
+                                         | None -> args0
+                                       in
+                                       ((Call (sy, c, f, args1, ta)), s1)
+                      | _ ->
+                        if has_option args (String ((Ascii (false, false,
                              false, false, true, true, true, false)), (String
                              ((Ascii (false, true, false, false, true, true,
                              true, false)), (String ((Ascii (true, true,
@@ -6430,24 +6577,55 @@ let hook_call e n s =
                              ((Ascii (false, false, false, false, true, true,
                              true, false)), (String ((Ascii (true, true,
                              false, false, true, true, true, false)),
-                             EmptyString)))))))))) p
-                         | None -> args
-                       in
-                       if has_option args0 (String ((Ascii (true, false,
-                            true, false, false, true, true, false)), (String
-                            ((Ascii (true, false, true, true, false, true,
-                            true, false)), (String ((Ascii (true, false,
-                            false, true, false, true, true, false)), (String
-                            ((Ascii (false, false, true, false, true, true,
-                            true, false)), (String ((Ascii (true, true,
-                            false, false, true, true, true, false)),
-                            EmptyString))))))))))
-                       then ((Call (sy, c, f, args0, ta)), s0)
-                       else let (emits, s1) = extract_emits_type e a0 s0 in
-                            let args1 =
-                              match emits with
-                              | Some e0 ->
-                                inject_option args0 (String ((Ascii (true,
+                             EmptyString))))))))))
+                        then if has_option args (String ((Ascii (true, false,
+                                  true, false, false, true, true, false)),
+                                  (String ((Ascii (true, false, true, true,
+                                  false, true, true, false)), (String ((Ascii
+                                  (true, false, false, true, false, true,
+                                  true, false)), (String ((Ascii (false,
+                                  false, true, false, true, true, true,
+                                  false)), (String ((Ascii (true, true,
+                                  false, false, true, true, true, false)),
+                                  EmptyString))))))))))
+                             then ((Call (sy, c, f, args, ta)), s)
+                             else let (emits, s0) = extract_emits_type e a0 s
+                                  in
+                                  let args0 =
+                                    match emits with
+                                    | Some e0 ->
+                                      inject_option args (String ((Ascii
+                                        (true, false, true, false, false,
+                                        true, true, false)), (String ((Ascii
+                                        (true, false, true, true, false,
+                                        true, true, false)), (String ((Ascii
+                                        (true, false, false, true, false,
+                                        true, true, false)), (String ((Ascii
+                                        (false, false, true, false, true,
+                                        true, true, false)), (String ((Ascii
+                                        (true, true, false, false, true,
+                                        true, true, false)),
+                                        EmptyString)))))))))) e0
+                                    | None -> args
+                                  in
+                                  ((Call (sy, c, f, args0, ta)), s0)
+                        else let (props, s0) = extract_props_type e a0 s in
+                             let args0 =
+                               match props with
+                               | Some p ->
+                                 inject_option args (String ((Ascii (false,
+                                   false, false, false, true, true, true,
+                                   false)), (String ((Ascii (false, true,
+                                   false, false, true, true, true, false)),
+                                   (String ((Ascii (true, true, true, true,
+                                   false, true, true, false)), (String
+                                   ((Ascii (false, false, false, false, true,
+                                   true, true, false)), (String ((Ascii
+                                   (true, true, false, false, true, true,
+                                   true, false)), EmptyString)))))))))) p
+                               | None -> args
+                             in
+                             if has_option args0 (String ((Ascii (true,
                                   false, true, false, false, true, true,
                                   false)), (String ((Ascii (true, false,
                                   true, true, false, true, true, false)),
@@ -6456,10 +6634,28 @@ let hook_call e n s =
                                   (false, false, true, false, true, true,
                                   true, false)), (String ((Ascii (true, true,
                                   false, false, true, true, true, false)),
-                                  EmptyString)))))))))) e0
-                              | None -> args0
-                            in
-                            ((Call (sy, c, f, args1, ta)), s1))
+                                  EmptyString))))))))))
+                             then ((Call (sy, c, f, args0, ta)), s0)
+                             else let (emits, s1) = extract_emits_type e a0 s0
+                                  in
+                                  let args1 =
+                                    match emits with
+                                    | Some e0 ->
+                                      inject_option args0 (String ((Ascii
+                                        (true, false, true, false, false,
+                                        true, true, false)), (String ((Ascii
+                                        (true, false, true, true, false,
+                                        true, true, false)), (String ((Ascii
+                                        (true, false, false, true, false,
+                                        true, true, false)), (String ((Ascii
+                                        (false, false, true, false, true,
+                                        true, true, false)), (String ((Ascii
+                                        (true, true, false, false, true,
+                                        true, true, false)),
+                                        EmptyString)))))))))) e0
+                                    | None -> args0
+                                  in
+                                  ((Call (sy, c, f, args1, ta)), s1))))
              | _ -> (n, s))
 
 (** val hook_declarator : env -> node -> st -> node * st **)
